@@ -63,6 +63,7 @@ UNIT = Unit(
         TypeItem("lib/melvm/src/lib.rs", "struct", "CovenantEnv"),
         Fn(C_, "get_coin", impl="CoinMapping", mode="assume", **cm_get_coin()),
         Fn(DEP_TX, "is_well_formed", impl="Transaction", mode="assume", **tx_is_well_formed()),
+        Raw(COV_WEIGHT_STUB),
         Fn(A, "extract_input_coins", home="C02", implicit_props=("C09", "C02"), **ap_extract_input_coins(),
            sig_subst=[("extract_input_coins<C: ContentAddrStore>", "extract_input_coins<'a, C: ContentAddrStore>"), ("transactions: &[Transaction]", "transactions: &'a [Transaction]")],
            rewrites=[("ANF", "collect", 0, 4, {})],
@@ -91,7 +92,7 @@ UNIT = Unit(
            injects=[Inject("entry", "let ghost tq = txx@; let ghost h0 = this.height;"),
                     Inject(("before", "let input_coins"), "let ghost acc1 = accum@;"),
                     Inject(("before", "let coins_to_add"), """proof { assert(tx.outputs@.take(tx.outputs@.len() as int) =~= tx.outputs@);
-                        lemma_fsum_ext(tx.outputs@, out_val(), |o: CoinData| o.value.0 as int); assert(outputs_fit(*tx)); }"""),
+                        lemma_fsum_ext(tx.outputs@, out_val(), |o: CoinData| o.value.0 as int); assert(outputs_fit(*tx)); assert(cov_weights_fit(*tx)); }"""),
                     Inject(("after_stmt", "map_extend(&mut accum, input_coins);"), "proof { lemma_rel_of(*this, tq, acc1, input_coins@); }"),
                     Inject(("before", "Ok(accum)"), "proof { assert(inputs_distinct(tq)); }")],
            loops=[
@@ -99,27 +100,34 @@ UNIT = Unit(
                     body_exit="proof { lemma_created_next(tq, it.index@ as int, h0, acc0, coins_to_add@); assert(accum@ =~= acc0.union_prefer_right(coins_to_add@)); }",
                     invariants=[
                    C("ctx0", "refs_of(it.seq(), tq) && tq == txx@ && h0 == this.height && this.coins.wf()", "C02"),
-                   C("wf0", "forall|q: int| 0 <= q < it.index@ ==> spec_well_formed(#[trigger] tq[q]) && outputs_fit(tq[q])", "C02", "C09"),
+                   C("wf0", "forall|q: int| 0 <= q < it.index@ ==> spec_well_formed(#[trigger] tq[q]) && outputs_fit(tq[q]) && cov_weights_fit(tq[q])", "C02", "C09"),
                    C("created0", "created_so_far(tq, it.index@ as int, h0, accum@)", "C02"),
                ]),
                Loop(1, binder="it2", body_entry="proof { assert(*output == tx.outputs@[it2.index@ as int]); lemma_fsum_take_next(tx.outputs@, out_val(), it2.index@ as int); }",
                     invariants=[
                    C("ctx1", "refs_of(it.seq(), tq) && 0 <= it.index@ < tq.len() && *tx == tq[it.index@ as int] && refs_of(it2.seq(), tx.outputs@) && tq == txx@ && h0 == this.height && this.coins.wf() && spec_well_formed(*tx)", "C02"),
-                   C("wf1", "forall|q: int| 0 <= q < it.index@ ==> spec_well_formed(#[trigger] tq[q]) && outputs_fit(tq[q])", "C02", "C09"),
+                   C("wf1", "forall|q: int| 0 <= q < it.index@ ==> spec_well_formed(#[trigger] tq[q]) && outputs_fit(tq[q]) && cov_weights_fit(tq[q])", "C02", "C09"),
                    C("created1", "created_so_far(tq, it.index@ as int, h0, accum@)", "C02"),
                    C("total", "total as int == tx.fee.0 + fsum(tx.outputs@.take(it2.index@ as int), out_val())", "C09"),
                ]),
-               Loop(2, binder="it", body_entry="proof { assert(*tx == tq[it.index@ as int]); }",
+               Loop(2, binder="it3", body_entry="proof { assert(*covenant == tx.covenants@[it3.index@ as int]); }",
+                    invariants=[
+                   C("ctx1c", "refs_of(it.seq(), tq) && 0 <= it.index@ < tq.len() && *tx == tq[it.index@ as int] && refs_of(it3.seq(), tx.covenants@) && tq == txx@ && h0 == this.height && this.coins.wf() && spec_well_formed(*tx) && total as int == tx.fee.0 + fsum(tx.outputs@.take(tx.outputs@.len() as int), out_val())", "C02"),
+                   C("wf1c", "forall|q: int| 0 <= q < it.index@ ==> spec_well_formed(#[trigger] tq[q]) && outputs_fit(tq[q]) && cov_weights_fit(tq[q])", "C02", "C09"),
+                   C("created1c", "created_so_far(tq, it.index@ as int, h0, accum@)", "C02"),
+                   C("covsum", "covenants_weight as nat == cov_sum(tx.covenants@, it3.index@ as int)", "C09", "C05", note="the running (checked) total of the covenants' weights: reaching the end of the loop means they fit in u128 together"),
+               ]),
+               Loop(3, binder="it", body_entry="proof { assert(*tx == tq[it.index@ as int]); }",
                     body_exit="proof { lemma_distinct_next_tx(tq, it.index@ as int); lemma_visited_next_tx(tq, it.index@ as int); }",
                     invariants=[
-                   C("ctx2", "refs_of(it.seq(), tq) && tq == txx@ && rel_of(*this, tq, accum@) && (forall|q: int| 0 <= q < tq.len() ==> spec_well_formed(#[trigger] tq[q]) && outputs_fit(tq[q]))", "C02"),
+                   C("ctx2", "refs_of(it.seq(), tq) && tq == txx@ && rel_of(*this, tq, accum@) && (forall|q: int| 0 <= q < tq.len() ==> spec_well_formed(#[trigger] tq[q]) && outputs_fit(tq[q]) && cov_weights_fit(tq[q]))", "C02"),
                    C("seen2", "forall|x: CoinID| seen@.contains(&x) <==> #[trigger] visited(tq, it.index@ as int, 0, x)", "C02"),
                    C("distinct2", "distinct_before(tq, it.index@ as int, 0)", "C02"),
                ]),
-               Loop(3, binder="it2", body_entry="let ghost seen0 = seen@; proof { assert(*input == tq[it.index@ as int].inputs@[it2.index@ as int]); assert(seen0.contains(input) <==> visited(tq, it.index@ as int, it2.index@ as int, *input)); }",
+               Loop(4, binder="it2", body_entry="let ghost seen0 = seen@; proof { assert(*input == tq[it.index@ as int].inputs@[it2.index@ as int]); assert(seen0.contains(input) <==> visited(tq, it.index@ as int, it2.index@ as int, *input)); }",
                     body_exit="proof { assert(!seen0.contains(input)); assert(seen@ == seen0.insert(input)); lemma_distinct_step(tq, it.index@ as int, it2.index@ as int); lemma_visited_step(tq, it.index@ as int, it2.index@ as int); }",
                     invariants=[
-                   C("ctx3", "refs_of(it.seq(), tq) && 0 <= it.index@ < tq.len() && *tx == tq[it.index@ as int] && refs_of(it2.seq(), tx.inputs@) && tq == txx@ && rel_of(*this, tq, accum@) && (forall|q: int| 0 <= q < tq.len() ==> spec_well_formed(#[trigger] tq[q]) && outputs_fit(tq[q]))", "C02"),
+                   C("ctx3", "refs_of(it.seq(), tq) && 0 <= it.index@ < tq.len() && *tx == tq[it.index@ as int] && refs_of(it2.seq(), tx.inputs@) && tq == txx@ && rel_of(*this, tq, accum@) && (forall|q: int| 0 <= q < tq.len() ==> spec_well_formed(#[trigger] tq[q]) && outputs_fit(tq[q]) && cov_weights_fit(tq[q]))", "C02"),
                    C("seen3", "forall|x: CoinID| seen@.contains(&x) <==> #[trigger] visited(tq, it.index@ as int, it2.index@ as int, x)", "C02"),
                    C("distinct3", "distinct_before(tq, it.index@ as int, it2.index@ as int)", "C02"),
                ]),
